@@ -1,0 +1,58 @@
+//go:build verif
+
+package agent
+
+import "time"
+
+// Hooks for the /verif check of property C43 (build tag verif only).
+//
+// keyring.go reads time.Now() directly, so there is no clock to inject. Moving the
+// stored expiry time of every key d into the past is equivalent to the clock having
+// advanced by d, and needs no wall-clock waiting in the check.
+
+// VerifC43AdvanceClock makes d more time appear to have passed for every key held by
+// a, which must have been returned by NewKeyring (otherwise it reports false).
+func VerifC43AdvanceClock(a Agent, d time.Duration) bool {
+	r, ok := a.(*keyring)
+	if !ok {
+		return false
+	}
+	r.mu.Lock()
+	defer r.mu.Unlock()
+	for i := range r.keys {
+		if r.keys[i].expire != nil {
+			t := r.keys[i].expire.Add(-d)
+			r.keys[i].expire = &t
+		}
+	}
+	return true
+}
+
+// VerifC43Key is one stored key as read from the keyring's private state.
+type VerifC43Key struct {
+	Blob      []byte
+	Comment   string
+	HasExpiry bool
+	Remaining time.Duration // until expiry (negative: expired but not yet purged)
+}
+
+// VerifC43State returns the keyring's private state verbatim: the stored keys in slice
+// order (including expired keys that have not been purged yet), the locked flag and the
+// passphrase.
+func VerifC43State(a Agent) (keys []VerifC43Key, locked bool, passphrase []byte, ok bool) {
+	r, isKeyring := a.(*keyring)
+	if !isKeyring {
+		return nil, false, nil, false
+	}
+	r.mu.Lock()
+	defer r.mu.Unlock()
+	for _, k := range r.keys {
+		vk := VerifC43Key{Blob: k.signer.PublicKey().Marshal(), Comment: k.comment}
+		if k.expire != nil {
+			vk.HasExpiry = true
+			vk.Remaining = time.Until(*k.expire)
+		}
+		keys = append(keys, vk)
+	}
+	return keys, r.locked, append([]byte(nil), r.passphrase...), true
+}
